@@ -6,7 +6,8 @@
                           it is the separate `terminator: u8 = 0` field, never written again;
                           new() writes data[0] = 0.
      PolymorphicString  : data() = capacity+1 bytes from the allocator; new() writes byte 0 only.
-     RelocatableString  : data() = capacity+1 bytes from the allocator; init() writes nothing.
+     RelocatableString  : data() = capacity+1 bytes from the allocator; init() writes byte 0
+                          (fix: b417f55).
    Bytes that were never written are modelled by POISON (the harness fills fresh memory with
    0xAA).  `data()[i]` is bounds-checked against the limit (Panic), ptr::copy is not. *)
 From V Require Import model.Base model.Obs model.Vec.
@@ -25,7 +26,7 @@ Definition str_new (fl : sflav) (c : N) : str :=
                           | S k => (0%N :: repeat POISON k) ++ [0%N]
                           end
              | FPoly => 0%N :: repeat POISON (N.to_nat c)
-             | FReloc => repeat POISON (S (N.to_nat c))
+             | FReloc => 0%N :: repeat POISON (N.to_nat c)
              end |}.
 
 Definition slimit (s : str) : N := match sfl s with FStatic => scap s | _ => scap s + 1 end.
@@ -55,7 +56,7 @@ Definition str_insert_bytes (s : str) (idx : N) (l : list N) : res (str * obs) :
   | Panic => Panic
   | Val b2 =>
     let nl := slen s + lenN l in
-    if N.ltb nl (scap s) then
+    if N.ltb nl (slimit s) then      (* fix: 8cf1846, `new_len < self.data().len()` *)
       match swr s b2 nl 0 with Panic => Panic | Val b3 => Val (sset s nl b3, OUnit) end
     else Val (sset s nl b2, OUnit)
   end.
@@ -66,10 +67,12 @@ Definition str_remove_range (s : str) (idx n : N) : res (str * bool) :=
   let b1 := if N.eqb (slen s) (idx + n) then sbuf s
             else copy_within (sbuf s) (idx + n) idx (slen s - (idx + n)) in
   let nl := slen s - n in
-  match swr s b1 nl 0 with
-  | Panic => Panic
-  | Val b2 => Val (sset s nl b2, true)
-  end.
+  if N.ltb nl (slimit s) then        (* fix: 8cf1846, the terminator write is guarded *)
+    match swr s b1 nl 0 with
+    | Panic => Panic
+    | Val b2 => Val (sset s nl b2, true)
+    end
+  else Val (sset s nl b1, true).
 
 (* remove(idx): fix: 09c004e made it `len <= idx -> None` *)
 Definition str_remove (s : str) (idx : N) : res (str * option N) :=
@@ -190,13 +193,9 @@ Definition str_step (s : str) (o : sop) : str * obs :=
 
 (* ---- the reference: a byte list (alloc::string::String / Vec<u8> semantics) with a capacity
    guard and the ASCII rule.  `dev = false` is the reference the property talks about;
-   `dev = true` additionally reproduces the three places where the code as it is now deviates
-   (all reported as candidate defects), so that the refinement theorem can be stated for it:
-     (a) retain(f) removes the bytes where f is TRUE (the doc and std say: keeps those);
-     (b) a zero-length remove_range / strip_prefix(b"") / strip_suffix(b"") on a FULL
-         StaticString panics (data_mut()[CAPACITY] is out of range);
-   (the third deviation, the missing NUL terminator of the non-static flavours, concerns SNul
-   only and is handled by excluding SNul for those flavours, see proofs/StrProofs.v). *)
+   `dev = true` reproduces the one place where the code as it is now deviates (known finding
+   string:retain-inverted, pinned by the repository's own retain_works test): retain(f) removes
+   the bytes where f is TRUE (the doc and std say: keeps those). *)
 Record sstr := { ssfl : sflav; sscap : N; sbytes : list N }.
 Definition sstr_new (fl : sflav) (c : N) : sstr := {| ssfl := fl; sscap := c; sbytes := [] |}.
 Definition ss (s : sstr) (l : list N) : sstr := {| ssfl := ssfl s; sscap := sscap s; sbytes := l |}.
@@ -227,10 +226,6 @@ Definition sins (s : sstr) (i : N) (l : list N) : sstr * obs :=
   else if existsb bad_byte l then (s, OErr EInvalidCharacter)
   else (ss s (firstn (N.to_nat i) bs ++ l ++ skipn (N.to_nat i) bs), OUnit).
 
-(* deviation (b) *)
-Definition zero_len_quirk (dev : bool) (s : sstr) : bool :=
-  dev && match ssfl s with FStatic => N.eqb (lenN (sbytes s)) (sscap s) | _ => false end.
-
 Definition sstr_step (dev : bool) (s : sstr) (o : sop) : sstr * obs :=
   let bs := sbytes s in
   match o with
@@ -245,25 +240,24 @@ Definition sstr_step (dev : bool) (s : sstr) (o : sop) : sstr * obs :=
     else (s, OO None)
   | SRemoveRange i n =>
     if N.ltb (lenN bs) (i + n) then (s, OB false)
-    else if N.eqb n 0 && zero_len_quirk dev s then (s, OP)
     else (ss s (firstn (N.to_nat i) bs ++ skipn (N.to_nat (i + n)) bs), OB true)
   | SRetain l =>
     (ss s (filter (fun c => if dev then negb (memb l c) else memb l c) bs), OUnit)
   | SFind l => (s, OO (sfind_aux bs l 0))
   | SRfind l => (s, OO (srfind_aux bs l 0))
   | SStripPrefix l =>
-    if prefixb l bs then
-      if N.eqb (lenN l) 0 && zero_len_quirk dev s then (s, OP)
-      else (ss s (skipn (length l) bs), OB true)
-    else (s, OB false)
+    if prefixb l bs then (ss s (skipn (length l) bs), OB true) else (s, OB false)
   | SStripSuffix l =>
-    if N.leb (lenN l) (lenN bs) && prefixb l (skipn (length bs - length l) bs) then
-      if N.eqb (lenN l) 0 && zero_len_quirk dev s then (s, OP)
-      else (ss s (firstn (length bs - length l) bs), OB true)
-    else (s, OB false)
+    if N.leb (lenN l) (lenN bs) && prefixb l (skipn (length bs - length l) bs)
+    then (ss s (firstn (length bs - length l) bs), OB true) else (s, OB false)
   | STruncate n => (ss s (firstn (N.to_nat n) bs), OUnit)
   | SClear => (ss s [], OUnit)
   | SBytes => (s, OL bs)
   | SNul => (s, ON 0)        (* a C string is NUL-terminated *)
   | SLen => (s, ON (lenN bs))
   end.
+
+(* the reference state that corresponds to a concrete string (used by the driver to go on
+   comparing after the known retain deviation) *)
+Definition sstr_of_str (m : str) : sstr :=
+  {| ssfl := sfl m; sscap := scap m; sbytes := firstn (N.to_nat (slen m)) (sbuf m) |}.
